@@ -131,11 +131,18 @@ func sendHTTPResponse(result runtime.Element, err error, w http.ResponseWriter) 
 					contentStr = jsonStr.String()
 				}
 
+				// the properties of the response object could have been given any value
+				headerMap, okH := respHeader.(*value.HashMap)
+				statusNum, okS := statusCode.(*value.Number)
+				if !okH || !okS || !(statusNum.GetValue() >= 100 && statusNum.GetValue() <= 999) {
+					respondError(w, fmt.Errorf("HTTP响应之「头部」须为字典，「状态码」须为 100 至 999 之间的数值"))
+					return
+				}
 				// write to response directly
-				for k, v := range respHeader.(*value.HashMap).GetValue() {
+				for k, v := range headerMap.GetValue() {
 					w.Header().Add(k, v.String())
 				}
-				w.WriteHeader(int(statusCode.(*value.Number).GetValue()))
+				w.WriteHeader(int(statusNum.GetValue()))
 				w.Write([]byte(contentStr))
 			}
 		default:
